@@ -332,7 +332,7 @@ func scanShared(c *core.Ctx) []ob {
 					// a completion method called on the copy (`cpy.allocateBuffers()`) reassigns what it assigns
 					if call, ok := n.(*ast.CallExpr); ok {
 						if se, ok := unparen(call.Fun).(*ast.SelectorExpr); ok {
-							if id, ok := unparen(se.X).(*ast.Ident); ok && copies[info.Uses[id]] && info.Uses[id] != types.Object(recv) {
+							if id, ok := unparen(se.X).(*ast.Ident); ok && copies[info.Uses[id]] && (info.Uses[id] != types.Object(recv) || !ptrRecv) {
 								if m := calleeFunc(info, call); m != nil {
 									for f := range fieldsAssignedByMethod(c.Program, m, 0) {
 										reassigned[f] = true
